@@ -26,6 +26,7 @@ type outcomeEnum struct {
 	p      *Program
 	sigs   map[*ssa.Function]string
 	sigSet map[*ssa.Function]bool
+	depth  int
 }
 
 func (oe *outcomeEnum) atomName(v int64) string {
@@ -88,6 +89,7 @@ func (oe *outcomeEnum) enumerate(fn *ssa.Function, symVal func(ssa.Value) (int64
 	visits := make([]int, len(fn.Blocks))
 	budget := 20000
 	var dfs func(b *ssa.BasicBlock, text string)
+	var dfsFrom func(b *ssa.BasicBlock, start int, text string)
 	dfs = func(b *ssa.BasicBlock, text string) {
 		if budget <= 0 || visits[b.Index] >= 2 {
 			return
@@ -95,7 +97,11 @@ func (oe *outcomeEnum) enumerate(fn *ssa.Function, symVal func(ssa.Value) (int64
 		budget--
 		visits[b.Index]++
 		defer func() { visits[b.Index]-- }()
-		for _, in := range b.Instrs {
+		dfsFrom(b, 0, text)
+	}
+	dfsFrom = func(b *ssa.BasicBlock, start int, text string) {
+		for ii := start; ii < len(b.Instrs); ii++ {
+			in := b.Instrs[ii]
 			ev, ok := evs[in]
 			if !ok {
 				continue
@@ -117,29 +123,67 @@ func (oe *outcomeEnum) enumerate(fn *ssa.Function, symVal func(ssa.Value) (int64
 			case evInt:
 				text += "{INT}"
 			case evRaw:
-				text += "{RAW}"
-			case evCall:
-				sig := oe.signature(ev.callee)
-				if sig == "" {
-					text += "{CALL:" + ev.callee.Name() + "}"
-					break
+				if ev.param > 0 {
+					text += fmt.Sprintf("{PARAM:%d}", ev.param-1)
+				} else {
+					text += "{RAW}"
 				}
-				if strings.Contains(sig, "{NAME}") {
-					name := "?"
-					call := in.(*ssa.Call)
-					for _, a := range call.Call.Args {
-						if nn := namedOf(a.Type()); nn != nil && nn.Obj().Name() == "Atom" {
-							st.why = ""
-							if v, ok := st.eval(a); ok {
-								name = oe.atomName(v)
-							} else if _, isParam := a.(*ssa.Parameter); isParam {
-								name = "{NAME}"
+			case evCall:
+				call := in.(*ssa.Call)
+				// substitute the call's constant arguments into a callee text
+				subst := func(t string) string {
+					if strings.Contains(t, "{NAME}") {
+						name := "?"
+						for _, a := range call.Call.Args {
+							if nn := namedOf(a.Type()); nn != nil && nn.Obj().Name() == "Atom" {
+								st.why = ""
+								if v, ok := st.eval(a); ok {
+									name = oe.atomName(v)
+								} else if _, isParam := a.(*ssa.Parameter); isParam {
+									name = "{NAME}"
+								}
 							}
 						}
+						t = strings.ReplaceAll(t, "{NAME}", name)
 					}
-					sig = strings.ReplaceAll(sig, "{NAME}", name)
+					for i, a := range call.Call.Args {
+						ph := fmt.Sprintf("{PARAM:%d}", i)
+						if !strings.Contains(t, ph) {
+							continue
+						}
+						if cs, ok := constString(a); ok {
+							t = strings.ReplaceAll(t, ph, cs)
+						} else {
+							t = strings.ReplaceAll(t, ph, "{RAW}")
+						}
+					}
+					return t
 				}
-				text += sig
+				sig := oe.signature(ev.callee)
+				if sig != "" {
+					text += subst(sig)
+					break
+				}
+				// a helper that is not a simple tag emitter: splice in each of its outcomes (the two designated
+				// sub-renderers stay opaque, the oracle names them)
+				if ev.callee.Name() != "filterRaw" && ev.callee.Name() != "appendAltText" && oe.depth < 3 {
+					oe.depth++
+					couts := oe.enumerate(ev.callee, symVal)
+					oe.depth--
+					if len(couts) > 0 {
+						seenT := map[string]bool{}
+						for _, co := range couts {
+							t := subst(co.text)
+							if seenT[t] {
+								continue
+							}
+							seenT[t] = true
+							dfsFrom(b, ii+1, text+t)
+						}
+						return
+					}
+				}
+				text += "{CALL:" + ev.callee.Name() + "}"
 			}
 		}
 		switch t := b.Instrs[len(b.Instrs)-1].(type) {
